@@ -8,12 +8,13 @@
              'ghost': 'g_pushed = 1; g_differs = rl->line.len != g_Lq || (g_strncmp_d < rl->line.len && rl->line.buf[g_strncmp_d] != g_slot_q[g_strncmp_d]);'}],
  'clauses': 'one-call refinement (DESIGN 3.4) of the key automaton against spec_ed_key (spec/c15_editor_ref.h): for every RL state related to a reference state, every byte, every capacity >= 2, every history depth 1..255 (and no history at all): same return code, related next state (len, cursor, content at an arbitrary index, escape phase, CR/LF memory, ring head, browse index, the entry of an arbitrary ghost slot, lastsize after a recall), RL preserved (cursor <= len <= cap-1, head < H, browse <= H, every entry NUL-terminated inside its cap bytes); the decision "line equals the most recent entry" is justified in both directions; every access inside the line buffer / the history space (exact-size objects)',
  'kf': ['C15_echo_refused', 'C15_crlf_pair'],
+ 'kf_probe_case': {'C15_echo_refused': {'CASE': 3, 'HD': 1}, 'C15_crlf_pair': {'CASE': 0, 'HD': 1}},
  'assumptions': ['RL(rl) on entry: SL(line), state in 0..3, history space an object of exactly cap*history_size bytes (or NULL), history_size >= 1, headhist < history_size, curhist <= history_size',
                  'the history entry the key consults and the ghost entry hold a NUL within their first cap bytes (part of RL; proved preserved for the ghost entry)',
                  'the typed byte is not NUL and the line holds no NUL (the history stores C strings; NUL is not a key of the statement; proved preserved at the ghost index)',
                  'cap * history_size <= UINT_MAX (readline_history_init and readline_history_pointer compute it in unsigned int), cap <= INT_MAX',
                  'stream-level conclusion by simulation induction over the byte stream on top of this one-step lemma (not machine-checked)'],
- 'params': {'CASE': [0, 1, 2, 3, 4, 5, 6, 7, 8, 9, 10], 'HD': [3]},
+ 'params': {'CASE': [0, 1, 2, 3, 4, 5, 6, 7, 8, 9, 10], 'HD': [0, 1, 2, 3, 102, 103]},
  'timeout': 300, 'object_bits': 10,
  'witness': {'unwind': 10},
 } @*/
@@ -26,22 +27,43 @@ size_t g_Lq;
 const char *g_slot_q;
 #include <igris/shell/readline.h>
 
+/* key classes: 0 end of line, 1 BS, 2 ESC, 3 ordinary character (phase 0); 4 any byte after ESC; 5..9 after ESC [ : A, B, C or D, 3, any other;
+   10 any byte after ESC [ 3 */
+#define C15_CLASS_OF(st, ch)                                                                                   \
+    ((st) == 0 ? (spec_ed_is_eol(ch) ? 0 : (ch) == ED_KEY_BS ? 1 : (ch) == ED_KEY_ESC ? 2 : 3)                  \
+     : (st) == 1 ? 4                                                                                           \
+     : (st) == 2 ? ((ch) == 'A' ? 5 : (ch) == 'B' ? 6 : ((ch) == 'C' || (ch) == 'D') ? 7 : (ch) == '3' ? 8 : 9) \
+     : (st) == 3 ? 10 : 11)
+
 void harness(void)
 {
     struct readline rl;
-    WIT(uint, cap); WIT(uint, len); WIT(uint, cursor); WIT(uint8_t, state); WIT(char, last); WIT(char, c);
-    WIT(uint8_t, has_hist); uint8_t H = HD; /* history depth: case split over constants (params) */
+    WIT(uint, cap0); WIT(uint, len); WIT(uint, cursor); WIT(char, last); WIT(char, c0);
+    WIT(uint8_t, any_state); WIT(char, any_c);
+    WIT(uint8_t, Hfree);
+    /* history: HD == 0: none (history_space NULL, history_size arbitrary); HD in 1..99: depth HD, capacity symbolic */
+    const uint8_t has_hist = HD != 0;
+    const uint8_t H = (HD != 0 && HD < 100) ? HD : Hfree;
+    /* second geometry (HD = 100 + cap): capacity constant, depth symbolic 1..255 (a product of two symbolic factors does not finish) */
+    const uint cap = HD >= 100 ? HD - 100 : cap0;
     WIT(uint8_t, head); WIT(uint8_t, browse);
     WIT(uint8_t, j); WIT(uint, Lj); WIT(uint, Lq); WIT(int, lastsize);
     WIT(size_t, k);
     WIT_ARR(char, content, 6);
     WIT_ARR(char, hcontent, 6);
+    /* ---- case split over (escape phase, key class): one run per class with the phase (and the key, where the class is a
+       single key) as constants, so that symbolic execution only walks the branch concerned; the classes cover every
+       (state in 0..3, byte), which is asserted over a fresh pair (any_state, any_c) */
+    __CPROVER_assert(any_state > 3 || C15_CLASS_OF(any_state, any_c) <= 10, "the case split is complete: every (state, byte) falls in one of the classes");
+    const uint8_t state = CASE <= 3 ? 0 : CASE == 4 ? 1 : CASE <= 9 ? 2 : 3;
+    const char c = CASE == 1 ? ED_KEY_BS : CASE == 2 ? ED_KEY_ESC : CASE == 5 ? 'A' : CASE == 6 ? 'B' : CASE == 8 ? '3' : c0;
+    __CPROVER_assume(C15_CLASS_OF(state, c) == CASE);
     /* ---- RL(rl) */
     __CPROVER_assume(cap >= 2 && cap <= VC_MAXOBJ && cap <= INT_MAX);
     __CPROVER_assume(cursor <= len && len <= cap - 1);
     __CPROVER_assume(state <= 3);
     __CPROVER_assume(H >= 1 && head < H && browse <= H && j < H);
-    __CPROVER_assume((unsigned long long)cap * H <= UINT_MAX && (size_t)cap * H <= VC_MAXOBJ);
+    if (has_hist) __CPROVER_assume((unsigned long long)cap * H <= UINT_MAX && (size_t)cap * H <= VC_MAXOBJ);
     __CPROVER_assume(c != 0);
     char *buf = NEW_OBJ(cap);
     FILL(buf, (size_t)cap, content);
@@ -76,14 +98,7 @@ void harness(void)
     o.q_len = q >= 0 ? Lq : 0; o.q_at_k = q >= 0 ? slot_q[k] : 0;
     char old_line_k = buf[k];
     char old_q_k = o.q_at_k;
-    /* ---- case split over (phase, key class): one run per class, the classes cover every (state, c) */
     int ordinary = state == 0 && c != ED_KEY_CR && c != ED_KEY_LF && c != ED_KEY_BS && c != ED_KEY_ESC;
-    int cls[11] = {state == 0 && spec_ed_is_eol(c), state == 0 && c == ED_KEY_BS, state == 0 && c == ED_KEY_ESC, ordinary, state == 1,
-                   state == 2 && c == 'A', state == 2 && c == 'B', state == 2 && (c == 'C' || c == 'D'), state == 2 && c == '3',
-                   state == 2 && c != 'A' && c != 'B' && c != 'C' && c != 'D' && c != '3', state == 3};
-    __CPROVER_assert(cls[0] || cls[1] || cls[2] || cls[3] || cls[4] || cls[5] || cls[6] || cls[7] || cls[8] || cls[9] || cls[10],
-                     "the case split is complete: every (state, byte) falls in one of the classes");
-    __CPROVER_assume(cls[CASE]);
     /* ---- known findings (genuine defects, findings.json) */
     int kf_echo = ordinary && len >= cap - 1;
     int kf_crlf = state == 0 && spec_ed_swallowed_eol(&r, c);
